@@ -117,7 +117,7 @@ def c13(tier, seed):
                     for prog in (False, True):
                         tags = leaf_tags if tree_kind == 'phyloxml' else [None]
                         for lt in tags:
-                            for it in (tags if naming == 'own' else tags[:1]):
+                            for it in tags:          # (with synthesised names the internal tag is still read by the name checks)
                                 configs.append((tree_kind, naming, transport, prog, lt, it))
         if tier == 'quick':
             # covering selection: every value of every dimension at least once, plus random ones
@@ -161,7 +161,7 @@ def c13(tier, seed):
                     # must reach every place that re-reads the file)
                     pxd_ = os.path.join(d, 't_%s_%s.phyloxml' % (lt, it))
                     with open(pxd_, 'w') as f_:
-                        f_.write(phyloxml_decoy(D.T, lt, it if naming == 'own' else lt))
+                        f_.write(phyloxml_decoy(D.T, lt, it, bare_internal=(naming == 'synth' and ex.rng.random() < 0.5)))
                     kw.update(tree_file=pxd_); ex.res.count('phyloxml_with_other_texts_in_the_unused_tags')
             if transport == 'string':
                 kw.update(hog_file=xml_lines, orthoXML_as_string=True)
@@ -251,7 +251,7 @@ def phyloxml_all(T):
             'xsi:schemaLocation="http://www.phyloxml.org http://www.phyloxml.org/1.20/phyloxml.xsd">\n'
             '<phylogeny rooted="true" rerootable="false"><name>t</name>' + clade(T) + '</phylogeny>\n</phyloxml>\n')
 
-def phyloxml_decoy(T, leaf_tag, internal_tag):
+def phyloxml_decoy(T, leaf_tag, internal_tag, bare_internal=False):
     """the tree as PhyloXML in which only the CHOSEN name tags carry the names; the other tags carry other texts (as in
     files where <code> is the species code and <scientific_name> the Latin name)"""
     cnt = [0]
@@ -260,8 +260,12 @@ def phyloxml_decoy(T, leaf_tag, internal_tag):
         tag = leaf_tag if not t[1] else internal_tag
         texts = dict(clade_name='decoy ' + t[0], taxonomy_code='Q%03d' % cnt[0], taxonomy_scientific_name='Decoyus ' + t[0])
         texts[tag] = t[0]
-        s = '<clade><name>%s</name><taxonomy><code>%s</code><scientific_name>%s</scientific_name></taxonomy>' % (
-            gen.xml_escape(texts['clade_name']), gen.xml_escape(texts['taxonomy_code']), gen.xml_escape(texts['taxonomy_scientific_name']))
+        if bare_internal and t[1]:
+            # an ancestral clade annotated with a taxon id only (names are synthesised from the leaves: r11-C13a)
+            s = '<clade><taxonomy><id provider="ncbi">%d</id></taxonomy>' % (9000 + cnt[0])
+        else:
+            s = '<clade><name>%s</name><taxonomy><code>%s</code><scientific_name>%s</scientific_name></taxonomy>' % (
+                gen.xml_escape(texts['clade_name']), gen.xml_escape(texts['taxonomy_code']), gen.xml_escape(texts['taxonomy_scientific_name']))
         for k in t[1]:
             s += clade(k)
         return s + '</clade>'
